@@ -67,6 +67,7 @@ type frame struct {
 	ghostVisits bool
 	skipWrap    bool
 	curBlock    *ssa.BasicBlock
+	fi          *freshInfo
 	loopMods    map[*Loop]*loopMod
 	iterMap     map[ssa.Value]*iterState
 }
@@ -82,6 +83,9 @@ func (fr *frame) pos(p token.Pos) string { return fr.vc.P.pos(p) }
 
 func (fr *frame) obligeHere(kind, label string, st *state, goal, pos string) *Obligation {
 	if fr.inline {
+		return nil
+	}
+	if fr.fc != nil && fr.fc.FrameOnly && !strings.HasPrefix(kind, "frame.") {
 		return nil
 	}
 	o := fr.vc.oblige(kind, label, fr.name, st.reach, goal, pos)
@@ -344,6 +348,12 @@ func (fr *frame) run(st0 *state) {
 		}
 	}
 	fr.collectDebug()
+	if !fr.inline {
+		fr.fi = analyseFresh(fr.vc.P, fn)
+		if len(fr.fi.fresh) > 0 {
+			fr.vc.assumedStd["freshness of loop-carried values and of values looked up in locally built maps is inferred by a static allocation-site analysis (greatest fixpoint) and assumed where those values are produced"] = true
+		}
+	}
 	order := topoOrder(fn)
 	for _, b := range order {
 		var st *state
@@ -551,6 +561,7 @@ func (fr *frame) step(in ssa.Instruction, st *state) bool {
 				r := res[0]
 				r.GT = x.Type()
 				fr.setValNamed(x, r)
+				fr.assumeStaticFresh(x, fr.vals[x], st)
 			}
 		}
 	case *ssa.Extract:
@@ -743,6 +754,7 @@ func (fr *frame) doUnOp(x *ssa.UnOp, st *state) {
 		fr.setValNamed(x, v)
 		// typed loads carry their range; references found in memory were allocated earlier
 		fr.assumeLoaded(fr.vals[x], st)
+		fr.assumeStaticFresh(x, fr.vals[x], st)
 	case token.NOT:
 		fr.setVal(x, T{not(fr.val(x.X).S), "Bool", x.Type()})
 	case token.SUB:
@@ -1162,4 +1174,17 @@ func minInt(a, b int) int {
 		return a
 	}
 	return b
+}
+
+// assumeStaticFresh: the value was allocated by this call (static provenance analysis).
+func (fr *frame) assumeStaticFresh(v ssa.Value, t T, st *state) {
+	if fr.fi == nil || !fr.fi.fresh[v] {
+		return
+	}
+	switch t.Sort {
+	case "Slice":
+		fr.vc.assume(st.reach, fmt.Sprintf("(or (>= (s_arr %s) %s) (= (s_cap %s) 0))", t.S, fr.next0, t.S))
+	case "Int":
+		fr.vc.assume(st.reach, fmt.Sprintf("(or (>= %s %s) (= %s 0))", t.S, fr.next0, t.S))
+	}
 }
